@@ -4,8 +4,8 @@ from harness.oracles import all as ALL
 
 ID = 'C04'
 UNITS = ['match_events', 'event_metrics', 'note_matching', 'transcription_scores', 'melody_metrics', 'multipitch_metrics', 'multipitch_resample', 'key_score', 'pattern_scores', 'alignment_scores', 'tempo_detection', 'beat_q', 'beat_ig', 'melody_resample', 'beat_ig_num']
-TRANSLATORS = ['defaults', 'tables', 'scalarfuncs', 'vecfuncs', 'wrapfuncs']
-NOT_COVERED = 'Partial: Goto and continuity are their own (procedural) definitions, tied by correspondence only; the Gaussian of Cemgil is an arbitrary function g with 0 <= g <= 1, g 0 = 1; the entropy of information gain is a Reals formula (K-L divergence from uniform) tied numerically inside Coq; default values are tied by the translator (defaults_as_documented).'
+TRANSLATORS = ['defaults', 'tables', 'scalarfuncs', 'vecfuncs', 'wrapfuncs', 'beatfuncs', 'patternfuncs']
+NOT_COVERED = 'Partial: Goto and continuity are their own (procedural) definitions (now tied by translation, BeatTie*.v); P-score and the information-gain histogram are tied by correspondence only; the Gaussian of Cemgil is an arbitrary function g with 0 <= g <= 1, g 0 = 1; the entropy of information gain is a Reals formula (K-L divergence from uniform) tied numerically inside Coq; default values are tied by the translator (defaults_as_documented).'
 ASSUMPTIONS = ['exact-arithmetic lattices for the correspondence (DESIGN.md section 2.1); NumPy/SciPy primitives as modelled per module']
 
 oracle_search = propgen.budgeted([ALL.for_property(ID)])
@@ -44,6 +44,6 @@ REFUTED = []
 MANIFEST = {
     'text': 'Refinement theorems: the algorithmic model equals a declarative definition: hits = size of a maximum matching of the stated tolerance predicate (events, notes), the five melody measures = sum-over-frames formulas, multipitch accounting and nearest-frame resampling, key table by kernel computation, tempo / alignment / pattern scores written out on their definitions.',
     'design_ref': 'DESIGN.md section 6, C04',
-    'level_note': 'Trusted: Coq kernel + vm_compute; correspondence harness per modelled metric; NumPy/SciPy primitives as modelled. ' + 'Partial: Goto and continuity are their own (procedural) definitions, tied by correspondence only; the Gaussian of Cemgil is an arbitrary function g with 0 <= g <= 1, g 0 = 1; the entropy of information gain is a Reals formula (K-L divergence from uniform) tied numerically inside Coq; default values are tied by the translator (defaults_as_documented).',
+    'level_note': 'Trusted: Coq kernel + vm_compute; correspondence harness per modelled metric; NumPy/SciPy primitives as modelled. ' + 'Partial: Goto and continuity are their own (procedural) definitions (now tied by translation, BeatTie*.v); P-score and the information-gain histogram are tied by correspondence only; the Gaussian of Cemgil is an arbitrary function g with 0 <= g <= 1, g 0 = 1; the entropy of information gain is a Reals formula (K-L divergence from uniform) tied numerically inside Coq; default values are tied by the translator (defaults_as_documented).',
     'technique': 'Coq proof on Gallina models of the task metrics (maximum-matching size lemmas, exact rational arithmetic); model/code correspondence by vm_compute',
 }
